@@ -203,7 +203,7 @@ void iv_signal_unregister(struct iv_signal *s) { g_sig_unreg++; }
 void iv_signal_child_reset_postfork(void) { g_postfork++; }
 pid_t STUB(fork)(void)
 {
-	__CPROVER_assert(g_lock_held, "[C11] the child is created inside the critical section that also inserts its interest: the reaper cannot see the child's exit before the interest exists");
+	__CPROVER_assert(g_lock_held, "[C11,C19] the child is created inside the critical section that also inserts its interest: the reaper cannot see the child's exit before the interest exists");
 	g_forks++;
 	return verif_in.kill_ret;	/* reused as the fork() result: <0 failure, >0 child pid (the child branch itself is not followed) */
 }
@@ -337,7 +337,7 @@ void h_wait_register_spawn(void)
 	if (verif_in.kill_ret < 0) {
 		__CPROVER_assert(r == verif_in.kill_ret && !g_in_tree && g_ev_unreg == 1 && v_tinfo.wait_count == 1, "[C11,C18] a failed fork undoes the registration completely");
 	} else {
-		__CPROVER_assert(r == 0 && v_I.pid == verif_in.kill_ret && g_in_tree, "[C11] the new child's pid is in the pid set before the lock is released: it cannot be missed however quickly it exits");
+		__CPROVER_assert(r == 0 && v_I.pid == verif_in.kill_ret && g_in_tree, "[C11,C19] the new child's pid is in the pid set before the lock is released: it cannot be missed however quickly it exits");
 		__CPROVER_assert(g_child_fn_calls == 0, "[C11] the child function runs in the child only");
 	}
 	__CPROVER_assert(!g_lock_held, "[C11] lock released on every path");
